@@ -4,7 +4,7 @@
     independent XML-patch applier [apply_ops]).  A document is written [plug ctx e]: the element [e]
     at the place described by the frames [ctx]; [located P ctx (sig_of e)] says that the selector [P]
     leads there. *)
-From Verif Require Import GoSem Patch PatchProofs PatchProofsCheck PatchExamples.
+From Verif Require Import GoSem Patch PatchProofs PatchProofsCheck PatchProofsMyers PatchExamples.
 From Coq Require Import Permutation.
 
 (** addLeafListChanges: for ANY edit script that is valid for (old,new) under equalLeafs, the
@@ -101,6 +101,39 @@ Proof.
                       end).
 Qed.
 Print Assumptions C11_myers_valid_bounded.
+
+(** The full statement about MyersDiff, kept here as a definition: it is NOT proved for unbounded
+    inputs (and is false without the length restriction, see C11_myers_panic_refuted). Proved parts:
+    C11_myers_valid_bounded above (exhaustive, bounded) and C11_myers_valid_snakes_* below (the divide
+    step is right whenever the indices the search returns are in range - this follows from the snake
+    loops alone). Missing: Myers' furthest-reaching invariant through the modulo-indexed arrays c, d
+    (that the search always returns such indices, and the D <= 1 shortcuts). Independently of it,
+    C11_checked holds for every pair on which the scripts are valid, and the correspondence checks
+    valid_script on every script the implementation produced. *)
+Definition C11_myers_valid_statement : Prop :=
+  forall e f : list Z, lenZ f < 3 * lenZ e + 5 ->
+  exists s, myers Z.eqb e f = Ok s /\ valid_script Z.eqb s e f = true.
+
+(** divide step, odd D (forward snake from (s,t) to (a,b); diffInternal recurses on e[0:s], f[0:t]
+    and e[a:N], f[b:M] with offsets i+a, j+b) *)
+Theorem C11_myers_valid_snakes_fwd : forall (e f : list Z) fuel s t a b s1 s2 i j,
+  snake Z.eqb fuel e f (lenZ e) (lenZ f) 1 1 s t = Ok (a, b) ->
+  0 <= s <= lenZ e -> 0 <= t <= lenZ f ->
+  valid_from Z.eqb s1 (takeZ s e) (takeZ t f) i j = true ->
+  valid_from Z.eqb s2 (dropZ a e) (dropZ b f) (i + a) (j + b) = true ->
+  valid_from Z.eqb (s1 ++ s2) e f i j = true.
+Proof. exact (snakes_divide_fwd Z.eqb). Qed.
+Print Assumptions C11_myers_valid_snakes_fwd.
+
+(** divide step, even D (reverse snake; x = N-a, y = M-b, u = N-s, v = M-t) *)
+Theorem C11_myers_valid_snakes_rev : forall (e f : list Z) fuel s t a b s1 s2 i j,
+  snake Z.eqb fuel e f (lenZ e) (lenZ f) 0 (-1) s t = Ok (a, b) ->
+  0 <= s <= lenZ e -> 0 <= t <= lenZ f ->
+  valid_from Z.eqb s1 (takeZ (lenZ e - a) e) (takeZ (lenZ f - b) f) i j = true ->
+  valid_from Z.eqb s2 (dropZ (lenZ e - s) e) (dropZ (lenZ f - t) f) (i + (lenZ e - s)) (j + (lenZ f - t)) = true ->
+  valid_from Z.eqb (s1 ++ s2) e f i j = true.
+Proof. exact (snakes_divide_rev Z.eqb). Qed.
+Print Assumptions C11_myers_valid_snakes_rev.
 
 (** Non-vacuity: a SegmentTimeline below MPD/Period (with an id-less sibling before it); the first S
     loses its t attribute, one S disappears and the last one gets a repeat count; the script of
